@@ -171,14 +171,14 @@ def run_shard(spec, emit):
                     kwargs["body"] = rng.choice([{"k": rand_value(rng, ascii_only=False), "n": [1, rand_value(rng)], "q'": 'v"'}] * 3 + [{}, [], "", 0, None, False])
                     kwargs["media_type"] = "application/json"
                 elif body_kind == "text":
-                    kwargs["body"] = rng.choice([rand_value(rng, allow_empty=False), "line1\nline2 'q'", "@/etc/hostname", "$HOME `id`", "--data-binary", "a=b&c=d", "tr\\ail"]) or "t"
+                    kwargs["body"] = rng.choice([rand_value(rng, allow_empty=False), "line1\nline2 'q'", "@/etc/hostname", "$HOME `id`", "--data-binary", "a=b&c=d", "tr\\ail", "na\u00efve caf\u00e9 \u2615", "\u65e5\u672c\u8a9e\nline2"]) or "t"
                     kwargs["media_type"] = "text/plain"
                 elif body_kind == "form":
                     # a form without fields serialises to no payload at all but still announces its content type
                     kwargs["body"] = rng.choice([{"a": rand_value(rng), "b c": "it's & more"}, {}, {"e": []}, {"a": ""}])
                     kwargs["media_type"] = "application/x-www-form-urlencoded"
                 else:
-                    kwargs["body"] = {"f": rand_value(rng), "g": "two\nlines"}
+                    kwargs["body"] = {"f": rand_value(rng), "g": rng.choice(["two\nlines", "gr\u00fc\u00dfe", "\u2603 snow"])}
                     kwargs["media_type"] = "multipart/form-data"
                 desc["body"] = kwargs["body"]
             case = operation.Case(
